@@ -56,8 +56,9 @@ def is_stub(n):
 
 
 def eff_opts(options):
-    o = {"nodeSpacing": 3, "minPos": 0, "maxPos": None, "algorithm": "overlap", "density": 0.85, "stubWidth": 1}
-    o.update(options)
+    o = {"nodeSpacing": 3, "minPos": 0, "maxPos": None, "algorithm": "overlap", "density": 0.85, "stubWidth": 1,
+         "lineSpacing": LINE_SPACING}
+    o.update(options or {})
     return o
 
 
@@ -67,16 +68,16 @@ def sorted_layer(items):
 
 
 def required_gap(a, b, o):
-    s = LINE_SPACING if (is_stub(a) and is_stub(b)) else o["nodeSpacing"]
+    s = o["lineSpacing"] if (is_stub(a) and is_stub(b)) else o["nodeSpacing"]
     return (a.width + b.width) / 2.0 + s
 
 
 # ----------------------------------------------------------------------------
 # C01
 # ----------------------------------------------------------------------------
-def check_c01(run, labels, options, nodes, tag="C01"):
+def check_c01(run, labels, options, nodes, tag="C01", inp=None):
     o = eff_opts(options)
-    inp = {"labels": labels, "options": options}
+    inp = inp or {"labels": labels, "options": options}
     for L, items in items_by_layer(nodes).items():
         its = sorted_layer(items)
         for i in range(len(its)):
@@ -92,7 +93,7 @@ def check_c01(run, labels, options, nodes, tag="C01"):
                 have = abs(b.currentPos - a.currentPos) if ta == tb else b.currentPos - a.currentPos
                 if have < need - EPS:
                     known = None
-                    if is_stub(a) and is_stub(b) and o["nodeSpacing"] < LINE_SPACING:
+                    if is_stub(a) and is_stub(b) and o["nodeSpacing"] < o["lineSpacing"]:
                         # D12: two stubs that are NOT neighbours (some other item lies between them, in target order
                         # and in position) and nodeSpacing < lineSpacing: the chain of neighbour gaps only guarantees
                         # the label spacing between them.  Only this region is excused; neighbours never are.
@@ -137,10 +138,10 @@ def layer_fit(its, o):
     if len(set(ts)) < len(ts) and sum(1 for n in its if is_stub(n)) >= 2:
         # items tied on target may be chained in either order, which changes how many stub/stub neighbours (line
         # spacing) there are: "fits" is only asserted when it fits under every such order (upper bound)
-        need = sum(Fr(n.width) for n in its) + (len(its) - 1) * Fr(max(LINE_SPACING, o["nodeSpacing"]))
+        need = sum(Fr(n.width) for n in its) + (len(its) - 1) * Fr(max(o["lineSpacing"], o["nodeSpacing"]))
     else:
         need = sum(Fr(n.width) for n in its) + sum(
-            Fr(LINE_SPACING if (is_stub(its[k]) and is_stub(its[k + 1])) else o["nodeSpacing"]) for k in range(len(its) - 1))
+            Fr(o["lineSpacing"] if (is_stub(its[k]) and is_stub(its[k + 1])) else o["nodeSpacing"]) for k in range(len(its) - 1))
     return need <= Fr(o["maxPos"]) - Fr(o["minPos"])
 
 
@@ -179,10 +180,11 @@ def tie_orders(its, cap=720):
         yield [n for g in combo for n in g]
 
 
-def check_c02_c03(run, labels, options, nodes, want):
+def check_c02_c03(run, labels, options, nodes, want, inp=None):
     """want: set of {'C02','C03'}"""
     o = eff_opts(options)
-    inp = {"labels": labels, "options": options}
+    inp0 = inp
+    inp = inp or {"labels": labels, "options": options}
     for L, items in sorted(items_by_layer(nodes).items()):
         its = sorted_layer(items)
         fits = layer_fit(its, o)
@@ -218,15 +220,15 @@ def check_c02_c03(run, labels, options, nodes, want):
                 bad["tie_orders_tried"] = tried
                 run.violation("C02.optimal", inp, bad)
     if "C03" in want:
-        check_c01(run, labels, options, nodes, tag="C03.spill")
+        check_c01(run, labels, options, nodes, tag="C03.spill", inp=inp0)
 
 
 # ----------------------------------------------------------------------------
 # C04
 # ----------------------------------------------------------------------------
-def check_c04(run, labels, options, force, nodes):
+def check_c04(run, labels, options, force, nodes, inp=None):
     o = eff_opts(options)
-    inp = {"labels": labels, "options": options}
+    inp = inp or {"labels": labels, "options": options}
     layers = force.getLayers()
     if layers is None:
         run.violation("C04.reported", inp, "getLayers() is None after compute()")
@@ -411,9 +413,105 @@ def random_instance(rng, nmax):
     return labels, options
 
 
+# ----------------------------------------------------------------------------
+# call histories: the statements quantify over configurations INCLUDING the documented defaults (keys left out); a layout
+# must not depend on which layouts the process computed before.  Every ordered pair (A, B) of the configurations below is
+# run A-then-B in this process, through both entries (Force.compute and removeOverlap.removeOverlap directly), and each
+# outcome is judged by the ordinary oracle for the configuration it was GIVEN.
+# ----------------------------------------------------------------------------
+HIST_CONFIGS = [None, {}, {"minPos": None}, {"maxPos": 100}, {"minPos": -30, "maxPos": 400}, {"nodeSpacing": 11},
+                {"maxPos": 60}, {"maxPos": 60, "lineSpacing": 14}, {"minPos": 12.5}]
+HIST_LABELS = [[[1.0, 50.0], [3.0, 50.0], [5.0, 50.0]],                      # crowded against the default lower bound
+               [[150.0, 20.0], [180.0, 20.0], [183.0, 20.0]],                # free-standing, beyond a stale upper bound
+               [[10.0 + 2 * k, 12.0] for k in range(9)]]                     # several layers under maxPos 60 (stubs)
+
+
+def run_step(entry, labels, options):
+    from labella import removeOverlap as ro
+    if entry == "force":
+        return run_force(labels, options or {})[1]
+    nodes = make_nodes(labels)
+    ro.removeOverlap(nodes, None if options is None else dict(options))
+    return nodes
+
+
+def check_step(run, props, entry, labels, options, history):
+    inp = {"labels": labels, "options": options, "entry": entry, "history": history}
+    ok, nodes = run.guard(lambda: run_step(entry, labels, options), "%s.exception" % sorted(props)[0], inp)
+    run.case(("H", entry, str(labels), str(options), str(history)), nontrivial=True)
+    if not ok:
+        return
+    if "C01" in props:
+        check_c01(run, labels, options, nodes, inp=inp)
+    w = props & {"C02", "C03"}
+    if w:
+        check_c02_c03(run, labels, options, nodes, w, inp=inp)
+
+
+def c04_step(labels, prior, options, how):
+    """label OBJECTS that took part in an earlier layout (prior options) are laid out again under `options`:
+    how = 'second-engine' (handed to a new Force) | 're-register' (same engine: nodes(...) again, set_options, compute)"""
+    nodes = make_nodes(labels)
+    f = Force(dict(prior))
+    f.nodes(nodes)
+    f.compute()
+    if how == "second-engine":
+        g = Force(dict(options))
+    else:
+        g = f
+        g.nodes(list(nodes))
+        g.set_options(dict(options))
+    g.nodes(nodes)
+    g.compute()
+    return g, nodes
+
+
+def histories_c04(run):
+    crowded = [{"maxPos": 60}, {"maxPos": 40, "algorithm": "simple"}, {"maxPos": 25, "density": 0.5}]
+    later = [{"maxPos": None}, {"maxPos": 400}, {"maxPos": 60, "algorithm": "none"}, {"maxPos": 90}, {"maxPos": 30}]
+    n = 0
+    for labels in (HIST_LABELS[2], [[5.0 * k, 8.0] for k in range(7)]):
+        for prior in crowded:
+            for opt in later:
+                for how in ("second-engine", "re-register"):
+                    full = dict(prior)
+                    full.update(opt)
+                    eff = opt if how == "second-engine" else full
+                    inp = {"labels": labels, "options": eff, "history": [{"entry": "force", "labels": labels, "options": prior}],
+                           "entry": "c04:" + how, "step_options": opt}
+                    ok, res = run.guard(lambda: c04_step(labels, prior, opt, how), "C04.exception", inp)
+                    run.case(("H4", str(labels), str(prior), str(opt), how), nontrivial=True)
+                    n += 1
+                    if ok:
+                        g, nodes = res
+                        check_c04(run, labels, eff, g, nodes, inp=inp)
+    run.exhaustive("histories: %d re-layouts of label objects that carry an earlier layout's stub chains" % n)
+
+
+def histories(run, props):
+    if "C04" in props:
+        histories_c04(run)
+    if not (props & {"C01", "C02", "C03"}):
+        return
+    n = 0
+    for entry in ("direct", "force"):
+        for A in HIST_CONFIGS:
+            for B in HIST_CONFIGS:
+                for la in HIST_LABELS[:2]:
+                    for lb in HIST_LABELS:
+                        if entry == "direct" and lb is HIST_LABELS[2] and False:
+                            continue
+                        run.guard(lambda: run_step(entry, la, A), "%s.exception" % sorted(props)[0],
+                                  {"labels": la, "options": A, "entry": entry})
+                        check_step(run, props, entry, lb, B, [{"entry": entry, "labels": la, "options": A}])
+                        n += 1
+    run.exhaustive("histories: %d two-call sequences (9 configurations incl. omitted keys / None, both entries)" % n)
+
+
 def explore(run, props):
     """Enumerated scope then seeded random instances; props subset of {'C01','C02','C03','C04','C06'}."""
     quick = run.tier == "quick"
+    histories(run, props)
     grid = [0.0, 0.5, 1.0, 2.0, 4.5] if quick else [0.0, 0.5, 1.0, 1.5, 2.0, 3.0, 4.5, 6.0]
     nmax = 3 if quick else 4
     stride = 7 if quick else 3
@@ -471,6 +569,15 @@ def one(run, props, labels, options):
 def replay(run, props, inp):
     labels = inp["labels"]
     options = inp["options"]
+    if str(inp.get("entry", "")).startswith("c04:"):
+        g, nodes = c04_step(labels, inp["history"][0]["options"], inp["step_options"], inp["entry"][4:])
+        check_c04(run, labels, options, g, nodes, inp=inp)
+        return
+    if "history" in inp:
+        for h in inp["history"]:
+            run_step(h["entry"], h["labels"], h["options"])
+        check_step(run, props, inp["entry"], labels, options, inp["history"])
+        return
     one(run, props, labels, options)
     if "perm" in inp or "labels2" in inp:
         pass
